@@ -218,6 +218,8 @@ class Expr:
             recv = VVal(recv.val, kind='rec')
         if isinstance(recv, (VMapB, VSetB, VListB, VTuple)):
             return [(VBuiltin('builder.' + attr, recv=recv), st)]
+        if isinstance(recv, VBuiltin) and recv.name == 'superobj':
+            return [(VBuiltin('supermeth.' + attr), st)]
         if isinstance(recv, VGen):
             raise OutOfSubset('attribute of generator', node)
         if not isinstance(recv, VVal):
